@@ -61,6 +61,8 @@ def scope_funcs(model):
 
 
 def run(ctx):
+    global _MODEL
+    _MODEL = ctx.model
     model = ctx.model
     engine = Engine(model)
     funcs = scope_funcs(model)
@@ -90,6 +92,9 @@ def run(ctx):
 
 
 # --------------------------------------------------------------------------------------------------
+_MODEL = None
+
+
 def _in_try_converting(f, node, exc_names):
     """Is `node` inside a try whose handler for one of exc_names (or Exception) raises CklRuntimeError?"""
     found = False
@@ -103,8 +108,14 @@ def _in_try_converting(f, node, exc_names):
                         names = ["*"] if h.type is None else [norm(x) for x in (h.type.elts if isinstance(h.type, ast.Tuple) else [h.type])]
                         if "*" in names or "Exception" in names or any(e in names for e in exc_names):
                             last = h.body[-1] if h.body else None
-                            if isinstance(last, ast.Raise) and last.exc is not None and "CklRuntimeError" in norm(last.exc):
-                                found = True
+                            if isinstance(last, ast.Raise) and last.exc is not None:
+                                if "CklRuntimeError" in norm(last.exc):
+                                    found = True
+                                elif _MODEL is not None:
+                                    from .common import raised_ctors
+                                    cs = raised_ctors(_MODEL, f, last.exc)
+                                    if cs and all(norm(c.func) == "CklRuntimeError" for c in cs):
+                                        found = True
                             if isinstance(last, ast.Return):
                                 found = True
                             if isinstance(last, (ast.Assign, ast.Pass, ast.Continue, ast.Break)):
@@ -476,6 +487,9 @@ def zero_and_index(ctx, engine, f, ip):
             continue
         node = where.get(id(s))
         have = facts.get(node.id, frozenset()) if node else frozenset()
+        if node is not None and node.ast is not None:
+            from ..facts import short_circuit_facts
+            have = set(have) | short_circuit_facts(node.ast if node.kind != "for" else node.ast.iter, s)
         base = norm(s.value)
         need = k + 1 if k >= 0 else -k
         ok = "nonempty" in b.flags and need == 1
